@@ -58,3 +58,132 @@ Proof.
   intros. apply depot_set_seq_ok, run_depot_set. eapply seq_set_depot_depot_set; eauto.
 Qed.
 Print Assumptions C07_hypotheses_reachable.
+
+(* Fixed values are moved to the right-hand side, but only tuples fixed to 0 occur in constraint
+   rows: b is the all-ones vector on every instance. *)
+Theorem C07_rhs_all_ones : forall (I : inst) (r : nat), (r < num_rows I)%nat -> bvec I r = 1.
+Proof. exact bvec_all_ones. Qed.
+Print Assumptions C07_rhs_all_ones.
+
+(* Every set of at most V routes -- each a list of customers with depot->first, consecutive and
+   last->depot arcs, using at most L positions including both depot ends -- that covers every
+   customer exactly once is a walk assignment after padding with depot stays:
+   pad_walks routes v s = nth s (0 :: nth v routes []) 0. *)
+Theorem C07_represent : forall (I : inst) (routes : list (list nat)),
+  seq_ok I -> (2 <= iL I)%nat -> (length routes <= iV I)%nat ->
+  Forall (valid_route I) routes ->
+  (forall n, (1 <= n)%nat -> (n < iN I)%nat -> count_occ Nat.eq_dec (concat routes) n = 1%nat) ->
+  walk_assignment I (pad_walks routes).
+Proof. exact pad_walks_assignment. Qed.
+Print Assumptions C07_represent.
+
+(* get_routes on the indicator vector of W returns the walks (no warning branch, no IndexError). *)
+Theorem C07_decode : forall (I : inst) (W : nat -> nat -> nat) (xl : list Z),
+  seq_ok I -> (3 <= iL I)%nat -> walk_assignment I W ->
+  length xl = num_variables I ->
+  (forall k, (k < num_variables I)%nat -> nth k xl 0 = indicator_free I W k) ->
+  decode I xl = Ok (walks I W).
+Proof. intros I W xl. rewrite <- nv_num. apply decode_walks. Qed.
+Print Assumptions C07_decode.
+
+(* Strict mode.  strict_graph states what the strict add_arc checked when each arc was stored with
+   the depot at index 0: customer origin: window end + travel time <= destination window end; depot
+   origin: window start + travel time <= destination window end; depot self-arc: a waiting vehicle
+   stays inside the depot window.  Then along every walk the earliest arrival times
+   (start of the depot window, then max(window start, previous + travel time)) meet every window. *)
+Theorem C07_strict_time : forall (I : inst) (W : nat -> nat -> nat) (v : nat),
+  strict_graph (ig I) -> windows_ok (ig I) -> walk_assignment I W -> (v < iV I)%nat ->
+  forall s, (s < iL I)%nat ->
+    nlo (node_at I (W v s)) <= arrival I (W v) s /\
+    ext_le (Fin (arrival I (W v) s)) (nhi (node_at I (W v s))).
+Proof. exact strict_time. Qed.
+Print Assumptions C07_strict_time.
+
+(* strict_graph is kept by the strict add_arc (a depot self-arc may only be overwritten with a travel
+   time that keeps a waiting vehicle inside the depot window) and by set_depot on the current depot *)
+Theorem C07_strict_kept : forall g,
+  strict_graph g ->
+  (forall o d tm c g' b,
+     add_arc_gen true g o d tm c = Ok (g', b) ->
+     (index_of o (names g) = Some 0%nat -> index_of d (names g) = Some 0%nat ->
+      ext_le (ext_add (nhi (gnode g 0)) tm) (nhi (gnode g 0))) ->
+     strict_graph g') /\
+  (forall nm g',
+     windows_ok g -> (0 < length (nodes g))%nat -> index_of nm (names g) = Some 0%nat ->
+     seq_set_depot g nm = Ok g' -> strict_graph g').
+Proof.
+  intros g Hst. split.
+  - intros. eapply strict_graph_add_arc; eauto.
+  - intros. eapply strict_graph_set_depot_same; eauto.
+Qed.
+Print Assumptions C07_strict_kept.
+
+(* ---------- non-vacuity ---------- *)
+(* strict class; depot D (0, inf), customers A (0,5), B (1,6); arcs D->A, A->B, B->D, A->D, D->B;
+   two vehicles (the second with surcharge 3), four positions *)
+Definition C07_example : inst :=
+  mkInst (run (Seq true)
+              [OpAddNode 10 0 0 PInf; OpAddNode 11 1 0 (Fin 5); OpAddNode 12 1 1 (Fin 6); OpSetDepot 10;
+               OpAddArc 10 11 1 2; OpAddArc 11 12 1 3; OpAddArc 12 10 1 4; OpAddArc 11 10 2 1;
+               OpAddArc 10 12 2 5] empty_graph)
+         2 4 [0; 3].
+
+Example C07_example_hypotheses :
+  seq_ok C07_example /\ (3 <= iL C07_example)%nat /\
+  strict_graph (ig C07_example) /\ windows_ok (ig C07_example) /\
+  walk_assignment C07_example (pad_walks [[1; 2]%nat]).
+Proof.
+  assert (Hok : seq_ok C07_example).
+  { apply depot_set_seq_ok. split; [apply run_inv, Inv_empty|]. vm_compute. auto 10. }
+  split; [exact Hok|]. split; [vm_compute; lia|].
+  split; [apply strict_graphb_true; vm_compute; reflexivity|]. split; [apply windows_okb_true; vm_compute; reflexivity|].
+  apply pad_walks_assignment; [exact Hok | vm_compute; lia | vm_compute; lia | |].
+  - constructor; [|constructor]. split; [|split].
+    + intros c [<-|[<-|[]]]; vm_compute; lia.
+    + vm_compute. repeat split; auto 10.
+    + vm_compute; lia.
+  - intros n H1 H2. change (iN C07_example) with 3%nat in H2.
+    destruct n as [|[|[|n]]]; try lia; vm_compute; reflexivity.
+Qed.
+
+(* on the example: the indicator vector of "vehicle 0 drives D-A-B-D, vehicle 1 stays" is decoded to
+   these walks and costs 2 + 3 + 4 for vehicle 0 and 3 x (0 + 3) for vehicle 1 *)
+Example C07_example_values :
+  let W := pad_walks [[1; 2]%nat] in
+  let xl := map (indicator_free C07_example W) (seq 0 (num_variables C07_example)) in
+  num_variables C07_example = 12%nat /\
+  decode C07_example xl = Ok [[0; 1; 2; 0]; [0; 0; 0; 0]]%nat /\
+  zdot 12 (cvec C07_example) (fun k => nth k xl 0) + zqf 12 (Qo C07_example) (fun k => nth k xl 0) = 18 /\
+  map (arrival C07_example (W 0%nat)) (seq 0 4) = [0; 1; 2; 3].
+Proof. vm_compute. repeat split; reflexivity. Qed.
+
+(* FINDING (strict mode, depot chosen after arcs exist): A (0,10), B (0,5), D (0,inf); add_arc(A,B,3)
+   is accepted by the lenient rule because A is node 0 at that moment; set_depot(D) then re-files it
+   as a customer-origin arc.  The walk D-A-B-D is a walk assignment of the resulting instance and
+   reaches B at time 11 > 5: the conclusion of C07_strict_time fails, its hypothesis strict_graph
+   does not hold for this API-reachable instance. *)
+Definition C07_moved_depot : inst :=
+  mkInst (run (Seq true)
+              [OpAddNode 11 1 0 (Fin 10); OpAddNode 12 1 0 (Fin 5); OpAddNode 10 0 0 PInf;
+               OpAddArc 11 12 3 1; OpSetDepot 10; OpAddArc 10 11 8 1; OpAddArc 12 10 0 1] empty_graph)
+         1 4 [0].
+
+Theorem C07_strict_time_moved_depot_refuted :
+  seq_ok C07_moved_depot /\ (3 <= iL C07_moved_depot)%nat /\
+  walk_assignment C07_moved_depot (pad_walks [[1; 2]%nat]) /\
+  ~ ext_le (Fin (arrival C07_moved_depot (pad_walks [[1; 2]%nat] 0%nat) 2))
+           (nhi (node_at C07_moved_depot (pad_walks [[1; 2]%nat] 0%nat 2%nat))).
+Proof.
+  assert (Hok : seq_ok C07_moved_depot).
+  { apply depot_set_seq_ok. split; [apply run_inv, Inv_empty|]. vm_compute. auto 10. }
+  split; [exact Hok|]. split; [vm_compute; lia|]. split.
+  - apply pad_walks_assignment; [exact Hok | vm_compute; lia | vm_compute; lia | |].
+    + constructor; [|constructor]. split; [|split].
+      * intros c [<-|[<-|[]]]; vm_compute; lia.
+      * vm_compute. repeat split; auto 10.
+      * vm_compute; lia.
+    + intros n H1 H2. change (iN C07_moved_depot) with 3%nat in H2.
+      destruct n as [|[|[|n]]]; try lia; vm_compute; reflexivity.
+  - intros H. vm_compute in H. apply H. reflexivity.
+Qed.
+Print Assumptions C07_strict_time_moved_depot_refuted.
